@@ -119,6 +119,12 @@ def inv_undirected(H):
                 bad.append("membership-not-an-edge")
             elif n not in members.get(e, ()):
                 bad.append("membership-without-member")
+    # the single-ID forms of the same reports
+    try:
+        if any(H.nodes.memberships(n) != memberships[n] for n in nodes[:4]) or any(H.edges.members(e) != members[e] for e in edges[:4]):
+            bad.append("single-id-report-disagrees-with-full-report")
+    except Exception as exc:
+        bad.append(f"single-id-report-unobservable:{type(exc).__name__}")
     na, ea = set(H._node_attr), set(H._edge_attr)
     if nset - na:
         bad.append("node-without-attr-record")
